@@ -122,6 +122,7 @@ class ConstantExpressionEvaluator:
         # Ensure division is integer division, truncating towards zero:
         if expr.typ.is_integer:
             op_map["/"] = lambda x, y: c_divmod(x, y)[0]
+            op_map["%"] = lambda x, y: c_divmod(x, y)[1]
             op_map[">>"] = lambda x, y: x >> y
             op_map["<<"] = lambda x, y: x << y
             op_map["|"] = lambda x, y: x | y
